@@ -367,6 +367,67 @@ distinct = distinct kind sequences / (message index, offset-in-message class, ty
     ctx.assumptions = vec!["type-31 messages are laid out contiguously with the last-pointed block physically last (the statement's precondition)".into()];
     ctx.floor_evaluations = 5_000;
     let seed = ctx.seed;
+    // Streams of radials decoded again and again on all worker threads at once: every thread has
+    // its own stream (every radial carries the volume, elevation and radial blocks, each with
+    // contents of its own) and decodes it eight times in a row; every entry of every pass is
+    // compared field by field with what was encoded.  Nothing another thread decodes meanwhile may
+    // show up in it.
+    let hot: u64 = ctx.tier.pick(1_200, 40_000);
+    par_cases(ctx, hot, |i, obs| {
+        let mut rng = Rng::derive(seed, 33, i);
+        let mut specs: Vec<Msg31> = Vec::new();
+        let mut stream: Vec<u8> = Vec::new();
+        for _ in 0..rng.urange(6, 14) {
+            let subset = 0b0000000111 | ((rng.below(128) as u16) << 3);
+            let mut spec = gen_msg31(&mut rng, subset, false, false);
+            for b in spec.blocks.iter_mut() {
+                if let enc::Block::Mom(m) = b {
+                    m.gates %= 24;
+                    m.data.truncate(m.gates as usize * (m.word as usize / 8));
+                }
+            }
+            let hdr = MsgHeader::realistic(&mut rng, 31);
+            let body = spec.encode(&mut rng);
+            stream.extend_from_slice(&enc::msg31_bytes(&hdr, &body));
+            specs.push(spec);
+        }
+        obs.case(mix(0x407, i));
+        for pass in 0..8 {
+            let replay = json!({"scenario": "stream of radials decoded repeatedly on all threads", "index": i, "pass": pass, "radials": specs.len(), "stream_hex": crate::ev::hex_abbrev(&stream, 256)});
+            match mon::catch(|| decode_messages(&mut Cursor::new(&stream[..]))) {
+                Err(p) => {
+                    obs.violation(format!("decode_messages {}", p.signature()), p.message, replay);
+                    return;
+                }
+                Ok(Err(e)) => {
+                    obs.violation("decode_messages error on well-formed stream", format!("{e:?}"), replay);
+                    return;
+                }
+                Ok(Ok(v)) => {
+                    if v.len() != specs.len() {
+                        obs.violation("message count differs", format!("{} messages in, {} out", specs.len(), v.len()), replay);
+                        return;
+                    }
+                    for (k, (m, spec)) in v.into_iter().zip(specs.iter()).enumerate() {
+                        let MessageContents::DigitalRadarData(r) = m.into_contents() else {
+                            obs.violation("entry differs from the same message decoded alone", format!("entry {} is not a radial", k), replay);
+                            return;
+                        };
+                        if let Some(d) = cmp31::compare(spec, &r).first() {
+                            obs.violation(
+                                "entry differs from the message that was encoded (stream decoded repeatedly on all worker threads)",
+                                format!("pass {} entry {}: field {} {}", pass, k, d.field, d.detail),
+                                replay,
+                            );
+                            return;
+                        }
+                    }
+                    obs.count("passes_over_a_stream_of_radials_field_exact", 1);
+                }
+            }
+        }
+    });
+
 
     // ---- exhaustive small scope --------------------------------------------------------------
     let mut rng = Rng::derive(seed, 3, 0);
